@@ -60,11 +60,13 @@ def run (args : List Str) (impl : String) : String × String × String :=
       -- "the system.reset sent on start, on ResetAll and on reconnect lists exactly the owned patterns"
       let out := "reconnect start-reset=T again-reset=T same=T"
       (out, out, "reconnect")
-    else if c = str "serve" || c = str "serve2" then
+    else if c = str "serve" || c = str "serve2" || c = str "serve3" then
+      -- serve3: as serve2, with the ownership lists set before the first run and not touched again
+      -- (an explicit list stays, a list left nil is the default of the run at hand).
       -- serve2: the service has been served and shut down once before, with a single get handler
       -- (`early`); the other handlers were registered afterwards.  Ownership that was never set is
       -- the default *for the handler kinds registered when Serve is called*, as on a first Serve.
-      match (parseCfg rest).map (fun (cfg, q) => (if c = str "serve2" then { cfg with hasRes := true } else cfg, q)) with
+      match (parseCfg rest).map (fun (cfg, q) => (if c = str "serve2" || c = str "serve3" then { cfg with hasRes := true } else cfg, q)) with
       | none => ("bad-op", "-", "bad")
       | some (cfg, queue) =>
         let m := modelOut cfg queue
@@ -85,7 +87,7 @@ def run (args : List Str) (impl : String) : String × String × String :=
           | some subs =>
             let n := (allPatterns res acc).length
             if subs.length < n then "serve-pruned" else "serve-all"
-        (m, spec, (if c = str "serve2" then "again-" else "") ++ tag ++ (if cfg.resources.isNone && cfg.access.isNone then "-default" else "-explicit") ++ (if cfg.name.isEmpty then "-noname" else ""))
+        (m, spec, (if c = str "serve2" then "again-" else if c = str "serve3" then "again-set-before-" else "") ++ tag ++ (if cfg.resources.isNone && cfg.access.isNone then "-default" else "-explicit") ++ (if cfg.name.isEmpty then "-noname" else ""))
     else ("bad-op", "-", "bad")
   | [] => ("bad-op", "-", "bad")
 
